@@ -44,6 +44,9 @@ def concretise(sc, seed):
         candidates, rows = [c - 1 for c in C], C
     else:
         candidates, rows = X[[c - 1 for c in C]].copy(), C
+        if seed % 3 == 0 and len(C) >= 2:
+            # repeated feature rows: every row is still a candidate of its own (pairs are counted per row)
+            candidates[1:] = candidates[0]
     nrows_arg = ns if cmode == "none" else len(C)
     if amode == "none":
         annotators = None
@@ -247,7 +250,7 @@ def main(tier="quick", seed=0):
     chk.sample({"trace": {k: v for k, v in traces[0].items() if k != "concrete"}})
     chk.sample({"call": traces[0]["concrete"]})
     chk.rule = ("scenarios from MultiAnnotGen (2-3 and 4-5 samples x 2-3 annotators, TLC-drawn label-missing patterns and "
-                "availability matrices, 3 candidate modes x 3 annotator modes, batch sizes {1,2,3,5,10}, "
+                "availability matrices, 3 candidate modes x 3 annotator modes (every third feature-row call with repeated rows), batch sizes {1,2,3,5,10}, "
                 "n_annotators_per_sample 1..n_annotators), executed on SingleAnnotatorWrapper around %d inner "
                 "strategies with A_perf None/per-annotator/per-pair and on IntervalEstimationThreshold (batch size 10 "
                 "stands for 'adaptive'); non-trivial = at least two available pairs" % len(INNER))
